@@ -552,12 +552,17 @@ pub fn packet_conv_val(data: &[u8], pfx: &str, panics: &mut Vec<String>) -> Valu
 
 /// result of the generic parser on `data`
 pub fn packet_res(data: &[u8], pfx: &str, with_conv: bool, panics: &mut Vec<String>) -> Value {
+    packet_res_in(data, data, pfx, with_conv, panics)
+}
+
+/// same, with slice positions reported relative to `base` (the buffer `data` is a sub-slice of)
+pub fn packet_res_in(base: &[u8], data: &[u8], pfx: &str, with_conv: bool, panics: &mut Vec<String>) -> Value {
     match guarded(|| {
         let mut pp = vec![];
         let v = match Packet::parse(data) {
             Err(e) => perr(&e),
             Ok(p) => {
-                let (mut view, p2) = packet_view(&p, data, pfx).done();
+                let (mut view, p2) = packet_view(&p, base, pfx).done();
                 pp.extend(p2);
                 if with_conv {
                     view["conv_val"] = packet_conv_val(data, pfx, &mut pp);
